@@ -1,5 +1,6 @@
 import ZipVerif.Basic.Bytes
 import ZipVerif.Basic.Out
+import ZipVerif.Model.Records
 /-
 Model of the extra-data part of `ZipWriter` (src/write.rs): `validate_extra_data`, the three
 extra-data calls (`write` while in extra-field mode, `end_local_start_central_extra_data`,
@@ -233,6 +234,25 @@ def extraPlacement (headerStart : UInt64) (nameLen : Nat) (largeFile : Bool) (mo
   | .err e => .err e
   | .panic s => .panic s
   | .ok st => if mode = .shared then .ok st else extraCentralPhase st central
+
+/-! ### The central record written by `finish`, and what the reader returns as `extra_data()` -/
+
+/-- `write_central_zip64_extra_field` for the entry once it is closed (`us` / `cs`: its uncompressed and
+compressed sizes): the ZIP64 record the writer itself puts at the front of the central record's extra
+field — empty unless a size or the header offset is ≥ 0xFFFFFFFF.  (The function of `Model/Records.lean`,
+tied to the source by `Tie.Records.tie_write_central_zip64_extra_field`; it reads these three fields only.) -/
+def EntrySt.centralZip64 (st : EntrySt) (us cs : UInt64) : Bytes :=
+  Model.centralZip64Bytes
+    { (default : Model.FileData) with headerStart := st.headerStart, uncompressedSize := us, compressedSize := cs }
+
+/-- The extra field of the central record `write_central_directory_header` emits for the entry: the ZIP64
+record, then `file.extra_field` — or `InvalidArchive("Extra data exceeds extra field")` before anything is
+written when the two together exceed the 16-bit length field.  `central_header_to_zip_file` (read.rs) stores
+these bytes unchanged in `ZipFileData::extra_field`, which is what `ZipFile::extra_data()` returns
+(`Model.centralHeaderInner`; `Props.C17.reader_returns_central_extra`). -/
+def EntrySt.centralExtraAll (st : EntrySt) (us cs : UInt64) : Out Bytes :=
+  let z := st.centralZip64 us cs
+  if z.length + st.extraField.length > 65535 then .err .invalidArchive else .ok (z ++ st.extraField)
 
 /-! ### Reader: `find_content` (read.rs) -/
 
